@@ -25,8 +25,10 @@ BOUNDS = {
 
 RHS = ['h', 'h[0]', '[h, h]', '{"k": h}', 'y', '[1, [2]]', 'enumerate(h)', 'items(d)', 't', 'd', 'd["k"]',
        '[d, t]', 'h[1:]', 'reversed(h)', 'sorted(d)', 'x', 'x[0]', 'values(d)', 'map(h, v => v)',
-       'filter(h, v => True)', 'h if True else 0', 'get(d, "k")', 'pop(h)', '(v => v)(h)', 'z', 'he', 'hd', 'd["e"]', '[he]', 't + t']
-RHS_SMALL = ['h', 'h[0]', '[h, h]', '{"k": h}', 'y', 'enumerate(h)', 'items(d)', 't', 'x[0]', 'get(d, "k")', 'z', 'he', 'hd']
+       'filter(h, v => True)', 'h if True else 0', 'get(d, "k")', 'pop(h)', '(v => v)(h)', 'z', 'he', 'hd', 'd["e"]', '[he]', 't + t',
+       'h or []', 'True and h', '(h or []) if True else None', 'he or h', 'None or d', 'deepn', 'deepn[0][0]', '[deepn]', 'not he and h']
+RHS_SMALL = ['h', 'h[0]', '[h, h]', '{"k": h}', 'y', 'enumerate(h)', 'items(d)', 't', 'x[0]', 'get(d, "k")', 'z', 'he', 'hd', 'h or []',
+             'True and h', 'deepn']
 
 
 def actions(alpha):
@@ -62,7 +64,10 @@ def fresh_host():
     h = [[D(1), D(2)], [D(3)]]
     d = {'k': [D(1)], 'm': {'n': [D(4)]}, 'e': []}
     t = ('id', [D(1), D(2)])
-    return {'h': h, 'd': d, 't': t, 'he': [], 'hd': {}}
+    deepn = [D(0)]
+    for _ in range(24):
+        deepn = [deepn]
+    return {'h': h, 'd': d, 't': t, 'he': [], 'hd': {}, 'deepn': deepn}
 
 
 def reach(v, out, keep):
@@ -94,6 +99,9 @@ def reach_scopes(names_obj):
 
 def canon(v, memo=None, order=None):
     """Contents + aliasing: mutable objects are numbered by first visit."""
+    import sys
+    if sys.getrecursionlimit() < 5000:
+        sys.setrecursionlimit(5000)
     if memo is None:
         memo, order = {}, [0]
     if isinstance(v, (list, dict)):
@@ -253,7 +261,7 @@ def run_history(res, history, mode):
     """Replay on fresh host objects; returns canonical state (or None if the last step failed)."""
     install_setitem_wrappers()
     names = fresh_host()
-    host0 = {k: names[k] for k in ('h', 'd', 't', 'he', 'hd')}
+    host0 = {k: names[k] for k in ('h', 'd', 't', 'he', 'hd', 'deepn')}
     host_expect = {k: plain(v) for k, v in host0.items()}
     w = Watch(res, history, mode)
     _watch[0] = w
